@@ -409,8 +409,9 @@ fn mode_branchers(args: &Args) {
         let mut setup = Setup::random(&mut r);
         // cycle deterministically through the grid; every 5th case uses a composite brancher
         let g = (i + args.seed as usize * 37) % grid;
+        // every 5th and every 5th+3 case uses a composite brancher
         setup.bspec = match i % 5 {
-            4 => match r.below(4) {
+            3 | 4 => match r.below(4) {
                 0 => BrancherSpec::Default,
                 1 => BrancherSpec::Dynamic(g % NUM_VARSEL, g / NUM_VARSEL, r.usize(NUM_VARSEL), r.usize(NUM_VALSEL), r.usize(100)),
                 2 => BrancherSpec::Alternating(r.below(4) as u8, g % NUM_VARSEL, g / NUM_VARSEL),
@@ -419,13 +420,17 @@ fn mode_branchers(args: &Args) {
             _ => BrancherSpec::Indep(g % NUM_VARSEL, g / NUM_VARSEL),
         };
         let scen = *r.pick(&["satisfy", "iterprefix", "iterprefix", "interrupted"]);
+        // a brancher with state across solves (alternation, dynamic index, VSIDS backup selector) is
+        // mostly run over several solves of one enumeration
+        let composite = !matches!(setup.bspec, BrancherSpec::Indep(..));
+        let scen = if composite && scen == "satisfy" { "iterprefix" } else { scen };
         let id = format!("{}-{}", args.seed, i);
         let desc = format!("scen={} seed={} {}", scen, case_seed, setup.describe());
         run_case(&id, &desc, |out| {
             kinds_meta(&m, out);
             match scen {
                 "satisfy" => scen_satisfy(&m, &setup, out),
-                "iterprefix" => scen_iterate(&m, &setup, 2 + r.usize(8), out),
+                "iterprefix" => scen_iterate(&m, &setup, if composite { 4 + r.usize(20) } else { 2 + r.usize(8) }, out),
                 _ => {
                     let spec = OptSpec { maximise: false, lus: false, objective: View::of(0) };
                     scen_interrupt(&m, &setup, "satisfy", &spec, &mut r, false, out)
